@@ -77,6 +77,8 @@ def translators():
   out['Src_lsml'] = lambda: translate_lsml.translate(REPO)
   import translate_scml
   out['Src_scml'] = lambda: translate_scml.translate(REPO)
+  import translate_mmc
+  out['Src_mmc'] = lambda: translate_mmc.translate(REPO)
   import translate_pins
   out['Src_pins'] = lambda: translate_pins.translate(REPO)
   try:
